@@ -257,6 +257,9 @@ def run(ctx: common.Ctx):
     # full / full_like with a fill value that is itself a (null or non-null) nullable scalar, in every spelling:
     # NumPy masked constant, masked 0-d array, ndonnx nullable array; eager, placeholder shape and placeholder fill
     nullable_fill_sweep(ctx)
+    # creation functions whose shape / fill / bound is a placeholder, at graph level (Model/TGraphScatter; Props/C13Graph.lean)
+    from .. import scattertie
+    scattertie.run(ctx, 90 if ctx.tier == "quick" else 2000, label="creation", kinds=("creation",))
 
 
 def nullable_fill_sweep(ctx):
